@@ -125,3 +125,121 @@ def shuffle_rule():
 def coq_rule(r):
     return ("{| cmp_pass := %s; cmp_p := %s; permuted_arg := %d; pct_is_one_minus_alpha := %s |}"
             % (r["cmp_pass"], r["cmp_p"], r["permuted_arg"], "true" if r["pct_is_one_minus_alpha"] else "false"))
+
+
+# ---------------------------------------------------------------------------
+# discovery: selection functions  ->  Selection.modelled_facts
+# ---------------------------------------------------------------------------
+def _stmts(f):
+    return [src(n).replace(" ", "") for n in ast.walk(f) if isinstance(n, ast.stmt)]
+
+
+def _call(f, name, anchor):
+    return one((n for n in ast.walk(f) if isinstance(n, ast.Call) and src(n.func) == name), anchor)
+
+
+def _arg(call, fdef_args, name):
+    """value expression passed for parameter `name` of a callee whose positional order is fdef_args"""
+    for kw in call.keywords:
+        if kw.arg == name:
+            return src(kw.value)
+    i = fdef_args.index(name)
+    if i < len(call.args):
+        return src(call.args[i])
+    raise Unavailable(f"argument {name} not passed")
+
+
+def selection_facts():
+    tree = parse("causationentropy/core/discovery.py")
+    facts = []
+    sf, af, bw = func(tree, "standard_forward"), func(tree, "alternative_forward"), func(tree, "backward")
+    st_args = [a.arg for a in func(tree, "shuffle_test").args.args]
+    # --- standard_forward
+    s = _stmts(sf)
+    if "k_best=int(ent_values.argmax())" in s and "j_best=candidates[k_best]" in s:
+        facts.append(("std.pick", "argmax"))
+    elif "k_best=int(ent_values.argmin())" in s:
+        facts.append(("std.pick", "argmin"))
+    else:
+        raise Unavailable("standard_forward pick")
+    rej = [n for n in ast.walk(sf) if isinstance(n, ast.If) and src(n.test).replace(" ", "") == "notpassed"]
+    body = [src(b).replace(" ", "") for b in one(rej, "standard_forward reject").body]
+    if body == ["candidates.pop(k_best)", "continue"]:
+        facts.append(("std.on_reject", "discard_and_continue"))
+    elif body == ["break"]:
+        facts.append(("std.on_reject", "stop"))
+    else:
+        raise Unavailable(f"standard_forward reject body {body}")
+    if ("Z=np.hstack([Z,X_best])ifZisnotNoneelseX_best" in s and "S.append(j_best)" in s
+            and "Z=Z_init.copy()ifZ_initisnotNoneelseNone" in s and "X_best=X_full[:,[j_best]]" in s
+            and s.count("candidates.pop(k_best)") == 2):
+        facts.append(("std.cond", "init_then_accepted"))
+    else:
+        raise Unavailable("standard_forward conditioning update")
+    c = _call(sf, "shuffle_test", "standard_forward test")
+    facts.append(("std.test_level", _arg(c, st_args, "alpha")))
+    if [src(a) for a in c.args[:4]] == ["X_best", "Y", "Z", "mi_best"] and "mi_best=ent_values[k_best]" in s:
+        facts.append(("std.tested_value", "value_of_best"))
+    else:
+        raise Unavailable("standard_forward tested value")
+    # --- alternative_forward
+    s = _stmts(af)
+    if "j_best=remaining[ent_values.argmax()]" in s and "remaining=np.setdiff1d(candidates,S)" in s:
+        facts.append(("alt.pick", "argmax"))
+    elif "j_best=remaining[ent_values.argmin()]" in s:
+        facts.append(("alt.pick", "argmin"))
+    else:
+        raise Unavailable("alternative_forward pick")
+    rej = [n for n in ast.walk(af) if isinstance(n, ast.If) and src(n.test).replace(" ", "") == "notpassed"]
+    body = [src(b).replace(" ", "") for b in one(rej, "alternative_forward reject").body]
+    facts.append(("alt.on_reject", {"break": "stop", "continue": "discard_and_continue"}.get(body[0] if len(body) == 1 else "", None)))
+    if facts[-1][1] is None:
+        raise Unavailable(f"alternative_forward reject body {body}")
+    if "Z=X_full[:,S]iflen(S)elseNone" in s and "S.append(j_best)" in s and "Z=None" in s:
+        facts.append(("alt.cond", "accepted"))
+    else:
+        raise Unavailable("alternative_forward conditioning update")
+    c = _call(af, "shuffle_test", "alternative_forward test")
+    facts.append(("alt.test_level", _arg(c, st_args, "alpha")))
+    if [src(a) for a in c.args[:4]] == ["X_best", "Y", "Z", "mi_best"] and "mi_best=ent_values.max()" in s:
+        facts.append(("alt.tested_value", "value_of_best"))
+    else:
+        raise Unavailable("alternative_forward tested value")
+    # --- backward
+    s = _stmts(bw)
+    loop = one((n for n in ast.walk(bw) if isinstance(n, ast.For)), "backward loop")
+    facts.append(("bwd.visit", src(loop.iter).replace(" ", "")))
+    if "Z=X_full[:,[kforkinSifk!=j]]iflen(S)>1elseNone" in s and "S=copy.deepcopy(S_init)" in s:
+        facts.append(("bwd.cond", "survivors_minus_j"))
+    elif "Z=X_full[:,[kforkinS_initifk!=j]]iflen(S_init)>1elseNone" in s:
+        facts.append(("bwd.cond", "forward_set_minus_j"))
+    else:
+        raise Unavailable("backward conditioning set")
+    rej = [n for n in ast.walk(bw) if isinstance(n, ast.If) and src(n.test).replace(" ", "") == "notpassed"]
+    body = [src(b).replace(" ", "") for b in one(rej, "backward reject").body]
+    if body == ["S.remove(j)"]:
+        facts.append(("bwd.on_reject", "remove_j"))
+    else:
+        raise Unavailable(f"backward reject body {body}")
+    c = _call(bw, "shuffle_test", "backward test")
+    facts.append(("bwd.test_level", _arg(c, st_args, "alpha")))
+    # --- drivers
+    for nm, drv, fw in (("std_driver", "standard_optimal_causation_entropy", "standard_forward"),
+                        ("alt_driver", "alternative_optimal_causation_entropy", "alternative_forward")):
+        d = func(tree, drv)
+        fa = [a.arg for a in func(tree, fw).args.args]
+        ba = [a.arg for a in bw.args.args]
+        facts.append((nm + ".forward_level", _arg(_call(d, fw, drv), fa, "alpha")))
+        facts.append((nm + ".backward_level", _arg(_call(d, "backward", drv), ba, "alpha")))
+    dn = func(tree, "discover_network")
+    for nm, drv in (("discover.std_levels", "standard_optimal_causation_entropy"),
+                    ("discover.alt_levels", "alternative_optimal_causation_entropy")):
+        da = [a.arg for a in func(tree, drv).args.args]
+        c = _call(dn, drv, "discover_network " + drv)
+        facts.append((nm, _arg(c, da, "alpha1") + "," + _arg(c, da, "alpha2")))
+    return facts
+
+
+def coq_selection_facts(facts):
+    return ("From CE Require Import Model.Selection.\nDefinition src_facts : list (string * string) :=\n  [" +
+            ";\n   ".join('("%s", "%s")' % (k, v.replace('"', "'")) for k, v in facts) + "].")
